@@ -21,6 +21,14 @@ CLAIMED = {
    "Structural necessary conditions decided on every run: builder methods are pure (return clone(), no write or append through the receiver, closed over callee write summaries), clone functions are field-complete with fresh reference fields, every terminal operation defers Close on all paths after a successful open, every os.Open/zip.OpenReader handle is closed on error paths and owned on success, Close methods are idempotent in shape, resolvePages range-checks, de-duplicates and sorts, and the page number stamped on model pages survives AddPage.",
    "Trusted: go/ssa, VTA call graph for callee write summaries; the table of documented non-terminal operations (PageCount, IsCharacterLevel, IsMultiColumn, Close); that a selection yields exactly the per-page results is not decided (needs C01).",
    "SSA effect summaries + CFG must-pass-through (defer Close, resource pairing) + guard dominance", "DESIGN.md §4 C10"),
+ "C01": ("other",
+   "Structural necessary conditions of layout independence decided from the typed program and the VTA call graph: the re-entrant object-resolution cycle (computed as an SCC through the ReferenceResolver interface) uses the shared file handle only positionally; inheritable page attributes are fetched on a cycle following /Parent; concatenated content streams are separated by PDF white space; the xref-kind, entry-kind, font-subtype, /Length-kind and /Contents-kind dispatch tables are complete; kids are traversed in array order; plus the newest-revision rules shared with C04.",
+   "Trusted: go/ssa + VTA for the cycle; ISO 32000 white-space set; text equality with the logical document, decoding (C05/C07) and run-time layouts are not decided.",
+   "call-graph SCC + who-may-use (typestate of the shared handle) + CFG cycle and table checks", "DESIGN.md §4 C01"),
+ "C04": ("other",
+   "Structural necessary conditions of newest-revision lookup: last-startxref search, oldest-first revision list paired with an unconditional forward overwrite (the mirrored pair would also be accepted; anything conditional on entry content is rejected), load calls dominated by the in-use and found edges, cache writes confined to the owning function under the requested key after err == nil (a whole-module who-may-write rule), header-number cross-check dominating every successful object-stream return, and the shared-handle rule of C01.",
+   "Trusted: go/ssa dominance, VTA; correctness of parsed xref fields, hybrid files and generation numbers are not decided.",
+   "guard dominance (must-cross-edge) + whole-module who-may-write + loop-shape classification", "DESIGN.md §4 C04"),
 }
 
 NOT_BUILT = "rules for this property are not built yet in this revision of /verif (see DESIGN.md §4 for the plan)"
